@@ -315,7 +315,7 @@ class Fragments(Harness):
 
 
 def _lt(a, b):
-    if isinstance(a, int) and isinstance(b, int):
+    if isinstance(a, (int, float)) and isinstance(b, (int, float)):
         return a < b
     return to_z3(a) < to_z3(b)
 
